@@ -8,12 +8,13 @@ def decode(string):
   return gfapy.NumericArray.from_string(string)
 
 def validate_encoded(string):
-  if not re.match(r"^(f(,[-+]?[0-9]*\.?[0-9]+([eE][-+]?[0-9]+)?)+|[CSI](,\+?[0-9]+)+|[csi](,[-+]?[0-9]+)+)\Z", string):
+  if not re.match(r"^(f(,[-+]?[0-9]*\.?[0-9]+([eE][-+]?[0-9]+)?)+|[cCsSiI](,[-+]?[0-9]+)+)\Z", string):
     raise gfapy.FormatError(
       "{} is not a valid numeric array string\n".format(repr(string))+
       "(it must be one of [fcsiCSI] followed by a comma-separated list of:"+
       " for f: floats; for csi: signed integers; for CSI: unsigned integers)")
-  # the values must be in the range of the subtype
+  # the values must be in the range of the subtype (a sign is allowed also
+  # for the unsigned subtypes, as when the array is parsed: "-0" is 0)
   gfapy.NumericArray.from_string(string)
 
 def validate_decoded(obj):
